@@ -13,6 +13,7 @@ if [ -d /tmp/seed/out/$ID/$V ]; then cp /tmp/seed/out/$ID/$V/* $D/; fi
 if [ -d /tmp/seed/out2/$ID/$V ]; then cp /tmp/seed/out2/$ID/$V/* $D/; fi
 if [ -d /tmp/seed/out3/$ID/$V ]; then cp /tmp/seed/out3/$ID/$V/* $D/; fi
 if [ -d /tmp/seed/out5/$ID/$V ]; then cp /tmp/seed/out5/$ID/$V/* $D/; fi
+if [ -d /tmp/seed/out6/$ID/$V ]; then cp /tmp/seed/out6/$ID/$V/* $D/; rm -f $D/tmp.diff; fi
 if [ -d /tmp/seed/out4/$ID/$V ]; then cp /tmp/seed/out4/$ID/$V/* $D/; rm -f $D/tmp.diff; fi
 TAG=seed-$ID-$V
 WT=/tmp/$TAG
